@@ -186,6 +186,10 @@ def jsonable(x, depth=0):
 # --------------------------------------------------------------------------
 # recorder
 # --------------------------------------------------------------------------
+class EnoughViolations(BaseException):
+    """VERIF_FAILFAST: a worker has seen enough unlisted violations."""
+
+
 class Rec:
     """Per-shard record of what the monitors observed."""
 
@@ -246,6 +250,19 @@ class Rec:
                 {"witness": jsonable(witness), "message": str(message)[:600]}
             )
         self.c["violating_observations"] += 1
+        # seed-evaluation tooling only (never set by a registered command):
+        # stop a worker once it has seen enough violations that no listed
+        # finding explains (some seeded changes make every case slow)
+        ff = os.environ.get("VERIF_FAILFAST")
+        if ff:
+            if not hasattr(self, "_known"):
+                self._known = {}
+            if check not in self._known:
+                self._known[check] = load_known(check)
+            if not any(record_matches(e, ent["record"]) for e in self._known[check]):
+                self._unlisted = getattr(self, "_unlisted", 0) + 1
+                if self._unlisted >= int(ff):
+                    raise EnoughViolations()
 
     def inconc(self, why):
         self.inconclusive.append(str(why))
